@@ -78,7 +78,9 @@ def val_engine(m):
 
 def c07(m, tier):
     eng = val_engine(m)
-    return [rules_val.rule_val(m, eng), rules_val.rule_sanitizer(m, eng), rules_val.rule_throw_before_write(m),
+    # `getEdgeLabel on a missing edge throws in every reachable state` needs the label of a removed edge to be gone: the
+    # existence test of the label accessor is the store itself
+    return _pair(m, None, ['F-PAIR.L'], {'F-PAIR.L': 30}) + [rules_val.rule_val(m, eng), rules_val.rule_sanitizer(m, eng), rules_val.rule_throw_before_write(m),
             rules_val.rule_getlabel(m), rules_decl.rule_throw(m), rules_struct.rule_label_writes(m), rules_decl.rule_defaults(m), rules_ts.rule_cursor_direction(m),
             rules_val.rule_invented_index(m), rules_decl.rule_noexcept(m)]
 
@@ -154,7 +156,8 @@ def c16(m, tier):
 
 
 def c08(m, tier):
-    return [rules_xport.rule_idx(m), rules_struct.rule_full_loops(m), rules_ts.rule_typestate(m), rules_ts.rule_cursor_direction(m)]
+    return [rules_xport.rule_idx(m), rules_struct.rule_full_loops(m), rules_ts.rule_typestate(m), rules_ts.rule_cursor_direction(m),
+            rules_decl.rule_encapsulation(m)]       # (which edges() / begin() / end() each of the eight classes publishes)
 
 
 def c09(m, tier):
@@ -173,7 +176,7 @@ def c13(m, tier):
 
 def c14(m, tier):
     out = [rules_io.rule_schema_binary(m), rules_io.rule_open(m), rules_io.rule_grow(m, 'binary'), rules_decl.rule_throw(m),
-           dropped_cells_result(m, {'io.bin'})]
+           dropped_cells_result(m, {'io.bin'}), rules_io.rule_checked_read(m)]
     if tier == 'thorough':
         out.append(rules_io.rule_endian_ir())
     return out
